@@ -396,7 +396,7 @@ MANIFEST_TEXT['C04']['level_text'] = ('Context agreement and export closure solv
                                       'defaults, references). The template layer is decided by concrete execution per shape, not symbolically.')
 MANIFEST_TEXT['C04']['level_note'] = 'Trusted: CrossHair/z3, Jinja2, CPython compile(), pysnmp as the judge of loadability. Outside: texts/numbers outside the pools, modules without IMPORTS.'
 PROPS['C04']['outside'] = ['shapes, names, numbers and texts outside the stated pools (EXEC is exhaustive over shapes, concrete in values)', 'modules without any IMPORTS clause',
-                           'plain types derived from a TEXTUAL-CONVENTION of the same module (known finding KF-pysnmp-type-before-tc)', 'hyphenated symbols imported between generated modules (known finding)']
+                           'hyphenated symbols imported between generated modules (known finding)']
 PROPS['C04']['bounds'] = '2 declarations over 11 kinds (3 in the thorough tier); identifier witnesses of length <= 3 (unsat answers hold for every length)'
 
 PROPS['C10']['files'] = list(PROPS['C10']['files']) + ['pysmi/searcher/pypackage.py']
@@ -406,7 +406,7 @@ PROPS['C10']['outside'] = ['real zipimport loaders (the egg branch runs on a fak
 
 PROPS['C14']['modules'] = PROPS['C14']['modules'] + ['harness.x14']
 PROPS['C14']['stubs'] = list(PROPS['C14']['stubs']) + ['EXEC conditions (C14.exec.*): no stubs - the unmodified readers on real temporary directories and real nested ZIP files, once per solver-explored shape']
-PROPS['C14']['outside'] = ['HTTP/FTP readers', 'default port chosen for https (not part of the statement)', 'file:// URLs that name a .zip (not pinned down by the documentation)',
+PROPS['C14']['outside'] = ['HTTP/FTP readers (their construction parameters are checked, their network behaviour is not)', 'file:// URLs that name a .zip (not pinned down by the documentation)',
                            'unreadable files on a real file system (the process runs as root; covered on the model only)']
 MANIFEST_TEXT['C14']['technique'] += '; the same shapes on real directories / real ZIP files, concretely per solver-explored shape (EXEC)'
 
@@ -440,3 +440,8 @@ MANIFEST_TEXT['C12']['level_text'] += (' Also: results handed back for one modul
 MANIFEST_TEXT['C17']['level_text'] += ' Every relaxed p_* function agrees with the base function on every alternative both have (children from a pool incl. falsy values).'
 MANIFEST_TEXT['C18']['level_text'] += ' Summary fields (identity / enterprise / compliance / oids) from the real parser + generators for identity-only / compliance-only modules, and the index built from them.'
 MANIFEST_TEXT['C08']['level_text'] += ' MibInfo.imported of the real symbol-table builder names every module of the IMPORTS clause and the SMIv2 homes, for all 248 entries of the import map.'
+
+for _p in ('C07', 'C08', 'C09'):
+    PROPS[_p]['modules'] = PROPS[_p]['modules'] + ['harness.x07']
+    PROPS[_p]['stubs'] = list(PROPS[_p]['stubs']) + ['EXEC conditions (*.exec.real-compile.*): NO scripted components - the real MibCompiler with CallbackReader, the real parser, SymtableCodeGen, JsonCodeGen / PySnmpCodeGen (real templates) and CallbackWriter, once per solver-explored shape of a three-module set']
+    MANIFEST_TEXT[_p]['technique'] += '; the real components plugged in, executed concretely per solver-explored shape (EXEC)'
